@@ -12,22 +12,25 @@ THM = ["YaraModel.Thm.C14"]
 MANIFEST = dict(
     technique="Lean 4 proof about an executable model of the block walker, CRC table, digest cache, histogram statistics and strtoll "
               "+ translator T6 (crc32_tab regenerated from hash.c) + exhaustive small-buffer correspondence against the real modules",
-    text="proof: Thm/C14.lean (30 theorems, re-checked every run) proves for ALL block lists / byte strings / offsets / lengths / call "
-         "sequences: the range walker shared by hash.c and math.c returns exactly buf[off, min(off+len,size)) on one block and undefined "
-         "outside it (rangeWalk_single), equals the memory-map specification on every ascending layout of non-empty blocks "
-         "(rangeWalk_eq_addressedMem; rangeWalk_contig, rangeWalk_gap, rangeWalk_skip) except the zero-length range at an inner block "
-         "boundary (rangeWalk_boundary_zero_length, finding F23); every entry of crc32_tab (regenerated from hash.c by translator T6) equals the "
+    text="proof: Thm/C14.lean (35 theorems, re-checked every run) proves for ALL block lists / byte strings / offsets / lengths / call "
+         "sequences, about a model that follows the code after the fixes 3e6ded9/5e43bd9/d04bbf9/3070536: the range walker shared by hash.c "
+         "and math.c returns exactly buf[off, min(off+len,size)) on one block and undefined outside it (rangeWalk_single) and equals the "
+         "memory-map specification on EVERY ascending layout of non-empty blocks for every offset and length, zero-length ranges at inner "
+         "block boundaries included (rangeWalk_eq_addressedMem; rangeWalk_contig, rangeWalk_gap, rangeWalk_skip, "
+         "rangeWalk_boundary_zero_length); the 64-bit break test `base+size >= (uint64)off + (uint64)len` has no wrap for non-negative int64 "
+         "operands and block ends < 2^63 (breakTest_no_wrap); every entry of crc32_tab (regenerated from hash.c by translator T6) equals the "
          "bitwise reflected CRC-32 (0xEDB88320) of its index and the table-driven loops equal the bitwise definition (crc32_table, crc32_fold, "
          "crc32_data); checksum32 = sum mod 2^32; the digest cache is transparent for every call sequence (cache_transparent); histogram "
-         "mean/deviation/count/percentage/mode equal their definitions over the addressed bytes; the string statistics equal the definitions "
-         "when bytes are read unsigned and, with the signed char of the code, exactly on 7-bit strings. PARTIAL: serial correlation and "
-         "Monte-Carlo pi equal their definitions only when ONE block serves the range (finding F21). SAMPLED only (correspondence): the "
-         "digest primitives (OpenSSL vs hashlib), IEEE evaluation (tolerance 1e-9 rel / 1e-12 abs; math.percentage is single precision: "
-         "2^-22; entropy via Lean Float), strtoll (model of the glibc grammar; proved: result in int64, base guard), to_string, min/max "
-         "(proved = min/max on non-negative arguments), abs, argument passing through compiler and VM.",
+         "mean/deviation/count/percentage/mode, serial correlation and Monte-Carlo pi equal their definitions over the addressed bytes for "
+         "every block list (serial_correlation_data, monte_carlo_data); the string statistics equal the definitions; abs is undefined exactly "
+         "for INT64_MIN. The pre-fix walker / per-block statistics / signed char are frozen regression definitions with kernel-checked "
+         "witnesses of the difference. SAMPLED only (correspondence): the digest primitives (OpenSSL vs hashlib), IEEE evaluation (tolerance "
+         "1e-9 rel / 1e-12 abs; math.percentage is single precision: 2^-22; entropy via Lean Float), strtoll (model of the glibc grammar; "
+         "proved: result in int64, base guard), to_string, min/max (proved = min/max on non-negative arguments), argument passing through "
+         "compiler and VM, independence of a call's result from the calls made before it in the scan / process (order and carried-state families).",
     design_ref="DESIGN.md §5 C14, translator T6 (§2.2)",
-    note=core.TB + "Digest primitives are parameters of the model. offset+length >= 2^63 and math.abs(INT64_MIN) are undefined behaviour "
-                   "in C and are exercised in separate processes. Unreadable blocks (fetch_data == NULL) are outside the model.")
+    note=core.TB + "Digest primitives are parameters of the model. offset+length >= 2^63 and math.abs(INT64_MIN) (formerly undefined "
+                   "behaviour in C) are exercised one call per process so that a sanitizer abort names its case. Unreadable blocks (fetch_data == NULL) are outside the model.")
 
 I64MAX = 2 ** 63 - 1
 I64MIN = -2 ** 63
@@ -35,8 +38,6 @@ RANGE_FNS = ["md5", "sha1", "sha256", "crc32", "ck32", "mean", "dev", "ent", "sc
 DIGESTS = ["md5", "sha1", "sha256"]
 STR_FNS = ["md5s", "sha1s", "sha256s", "crc32s", "ck32s", "means", "devs", "ents", "scs", "mcs", "len", "toint"]
 FLOAT32_FNS = {"pct", "pctg"}
-SIGNED_FNS = {"means", "devs", "scs", "mcs"}
-MULTIBLOCK_FNS = {"sc", "mc"}
 CALLS_PER_LINE = 48
 
 
@@ -353,6 +354,154 @@ def gen_scalars(r, tier, out, meta):
     lines_from_calls("sc", [(0, b"x")], calls, out, meta, "scalars")
 
 
+def consumed(blocks, o, l):
+    """bytes the walker consumes for (o, l) on an ascending layout (None if undefined) — generator helper only"""
+    if not blocks or o < 0 or l < 0 or o < blocks[0][0]:
+        return None
+    n, started = 0, False
+    for base, data in blocks:
+        if base <= o + n < base + len(data):
+            take = min(l - n, base + len(data) - (o + n))
+            n += take
+            started = True
+            if o + n >= o + l:
+                break
+        elif started:
+            return None if n < l else n
+    return n if started else None
+
+
+def one_per_line(prefix, blocks, seqs, out, meta, family):
+    bt = blocks_tok(blocks)
+    for cl in seqs:
+        cid = "%s%d" % (prefix, len(out))
+        out.append("%s %s %s" % (cid, bt, " ".join(cl)))
+        meta[cid] = family
+
+
+def gen_order(r, tier, out, meta):
+    """Call ORDER inside one scan must not matter (digest cache keys, any state shared between the walkers).
+    Key groups contain, next to a key (o, l): the key the walker ends at, (o+consumed, l-consumed) — a digest stored under
+    the advanced working copies would be found there —, the swapped key, the same offset with another length, the clipped
+    twin (same bytes, longer length)."""
+    data = rand_bytes(r, 12)
+    layouts = [[(0, data)], [(0, data[:5]), (5, data[5:])], [(0, data[:5]), (7, data[5:])], [(4, data[:3]), (7, data[3:])]]
+    base_keys = [(0, 3), (0, 5), (2, 3), (5, 7), (3, 100), (0, 12), (11, 1), (5, 0), (0, 0), (6, 2), (4, 9)]
+    if tier == "quick":
+        layouts, base_keys = layouts[:3], base_keys[:7]
+    for blocks in layouts:
+        for (o, l) in base_keys:
+            c = consumed(blocks, o, l)
+            group = [(o, l), (l, o), (o, l + 1)]
+            if c is not None:
+                group += [(o + c, l - c), (o, c), (o + c, 0)]
+            group = list(dict.fromkeys(group))[:5]
+            calls = ["%s:%d:%d" % (a, ko, kl) for a in DIGESTS for (ko, kl) in group]
+            seqs = []
+            # every ordered pair of (algorithm, key) calls, asked twice: A B A B
+            for A in calls:
+                for B in calls:
+                    if A != B:
+                        seqs.append([A, B, A, B])
+            one_per_line("or", blocks, seqs, out, meta, "order-pairs")
+        # all permutations of 4 distinct calls
+        for _ in range(2 if tier == "quick" else 12):
+            ks = r.sample(base_keys, 2)
+            four = ["md5:%d:%d" % ks[0], "md5:%d:%d" % ks[1], "sha1:%d:%d" % ks[0], "sha256:%d:%d" % ks[1]]
+            one_per_line("or", blocks, [list(pm) for pm in itertools.permutations(four)], out, meta, "order-permutations")
+        # every walker on one key, forwards and backwards, digests repeated in between
+        for (o, l) in base_keys:
+            seq = []
+            for f in ["crc32", "md5", "ck32", "sha1", "mean", "sha256", "ent", "md5", "sc", "sha1", "mc", "sha256", "mode", "md5", "dev", "cnt", "pct"]:
+                seq.append(range_call(r, f, o, l, data))
+            one_per_line("or", blocks, [seq, seq[::-1], seq + seq[::-1]], out, meta, "order-all-walkers")
+
+
+POISON_INT = ["9223372036854775808", "-9223372036854775809", "99999999999999999999999999999999", "0x8000000000000000", "-0xffffffffffffffffff",
+              "", " ", "-", "0x", "12z", "1 ", "\x00" + "5", "077777777777777777777777"]
+NORMAL_INT = ["0", "1", "-1", "42", "  7", "0x10", "-0x7fffffffffffffff", "9223372036854775807", "-9223372036854775808", "010", "+5"]
+
+
+def gen_state(r, tier, out, meta):
+    """The result of a call must not depend on what an EARLIER call left behind (errno after an overflowing strtoll,
+    counters, a half-filled group buffer, a cached undefined …): poison/normal sequences inside one scan, and whole scans
+    of poison calls followed by whole scans of normal calls inside one harness process."""
+    def ti(sx, base=None):
+        b = sx.encode("latin-1")
+        return "toint:%s" % hx(b) if base is None else "tointb:%s:%d" % (hx(b), base)
+    one = [(0, b"x")]
+    seqs = []
+    for P in POISON_INT:
+        for N in r.sample(NORMAL_INT, 3 if tier == "quick" else len(NORMAL_INT)):
+            seqs += [[ti(P), ti(N)], [ti(N), ti(P), ti(N)], [ti(P), ti(P, 10), ti(N, 0), ti(N)], [ti(P, 16), ti(N, 16)],
+                     [ti(N, 37), ti(N, 10)], [ti(P), "md5s:61", ti(N)], [ti(P), "ents:6162", "mcs:000000000000", ti(N)]]
+    one_per_line("cs", one, seqs, out, meta, "carried-state-to_int")
+    # a normal to_int after every other kind of call
+    data = rand_bytes(r, 13)
+    blocks = [(0, data)]
+    others = []
+    for f in RANGE_FNS:
+        others += [range_call(r, f, 0, 13, data), range_call(r, f, 13, 1, data), range_call(r, f, -1, 2, data), range_call(r, f, 2, I64MAX - 2, data)]
+    others += str_calls(r, b"\xff\x00\x80abc") + str_calls(r, b"")
+    others += ["min:-1:1", "max:-1:1", "abs:-5", "abs:%d" % I64MIN, "tostr:-1", "tostrb:5:7", "tostrb:-1:16", "tonum:1", "inr:1:0:2",
+               "cntg:97", "pctg:0", "modeg", "cnt:256:0:1", "pct:-1:0:1"]
+    seq = []
+    for c in others:
+        seq += [c, ti(r.choice(NORMAL_INT)), ti(r.choice(NORMAL_INT), r.choice([0, 10, 16]))]
+    lines_from_calls("cs", blocks, seq, out, meta, "carried-state-after-any-call")
+    # poison then normal for every range function (undefined first, then defined, twice) on several layouts
+    layouts = [blocks, [(0, data[:6]), (6, data[6:])], [(0, data[:6]), (8, data[6:])], [(3, data)]]
+    for bl in layouts:
+        lo = bl[0][0]
+        end = bl[-1][0] + len(bl[-1][1])
+        seq = []
+        for f in RANGE_FNS:
+            poison = [(-1, 3), (lo, -1), (end, 0), (end + 5, 2), (lo + 2, 9) if len(bl) > 1 else (end, 1), (lo, 3)]
+            normal = [(lo, 6), (lo + 1, 5), (lo, end - lo), (lo + 1, 6)]
+            for (po, pl) in poison:
+                no, nl = r.choice(normal)
+                seq += [range_call(r, f, po, pl, data), range_call(r, f, no, nl, data)]
+        lines_from_calls("cs", bl, seq, out, meta, "carried-state-range-functions")
+    # across scans in one process: 16 lines of poison calls, then 16 lines of normal calls (the harness processes of
+    # run_parallel take every 16th line), repeated
+    reps = 2 if tier == "quick" else 8
+    for _ in range(reps):
+        for _ in range(16):
+            one_per_line("cs", one, [[ti(r.choice(POISON_INT)) for _ in range(3)] + ["mcs:0102030405", "md5:5:1", "abs:%d" % (I64MIN + 1)]], out, meta,
+                         "carried-state-across-scans")
+        for _ in range(16):
+            one_per_line("cs", one, [[ti(r.choice(NORMAL_INT)) for _ in range(3)] + ["mcs:000000000000", "md5:0:1", "abs:-3", ti("z", 36)]], out, meta,
+                         "carried-state-across-scans")
+
+
+def gen_clipped(r, tier, out, meta):
+    """Ranges that start inside the last contiguous run and are clipped by the end of the last block: every range
+    function on every such range (the clipped length, not the requested one, is what the statistics divide by)."""
+    layouts = []
+    for n in ([1, 6, 7, 13, 24] if tier == "quick" else [1, 2, 5, 6, 7, 11, 12, 13, 18, 23, 24]):
+        layouts.append([(0, rand_bytes(r, n))])
+    d = rand_bytes(r, 14)
+    layouts += [[(0, d[:6]), (6, d[6:])], [(0, d[:4]), (4, d[4:9]), (9, d[9:])], [(0, d[:5]), (9, d[5:])], [(2, d[:7]), (9, d[7:])]]
+    for blocks in layouts:
+        end = blocks[-1][0] + len(blocks[-1][1])
+        # start of the last contiguous run
+        run = blocks[-1][0]
+        for i in range(len(blocks) - 1, 0, -1):
+            if blocks[i - 1][0] + len(blocks[i - 1][1]) == blocks[i][0]:
+                run = blocks[i - 1][0]
+            else:
+                break
+        alldata = b"".join(x for _, x in blocks)
+        calls = []
+        offs = sorted(set([run, run + 1, max(run, end - 7), max(run, end - 6), max(run, end - 2), end - 1]))
+        for o in offs:
+            rem = end - o
+            for l in sorted(set([max(rem - 1, 0), rem, rem + 1, rem + 2, rem + 6, rem + 255, 2 ** 31, 2 ** 32 + 1, I64MAX - o])):
+                for f in RANGE_FNS:
+                    calls.append(range_call(r, f, o, l, alldata))
+        lines_from_calls("cl", blocks, calls, out, meta, "clipped-at-last-block")
+
+
 def generate(tier):
     r = core.rng("C14")
     out, meta, ub = [], {}, []
@@ -362,6 +511,9 @@ def generate(tier):
     gen_strings(r, tier, out, meta)
     gen_toint(r, tier, out, meta)
     gen_scalars(r, tier, out, meta)
+    gen_order(r, tier, out, meta)
+    gen_state(r, tier, out, meta)
+    gen_clipped(r, tier, out, meta)
     # undefined-behaviour class: one process per case (a sanitizer abort must not take other cases with it)
     ublines = []
     walkers = ["md5", "sha1", "sha256", "crc32", "ck32", "mean", "sc", "mc"]
@@ -413,24 +565,17 @@ def parse_blocks(btok):
 
 
 def classify(fn, btok, call, impl, model):
-    """-> ('ok'|'finding'|'bad', tag).  A finding is reported only for the exact signature of a listed defect class AND
-    when the implementation returns exactly what the code-following model (second alternative) predicts."""
+    """-> ('ok'|'bad', kind).  The implementation must return the specification value; the code-following model must agree
+    with the specification as well (the driver prints `<spec>~<model>` only when they differ) — otherwise the theorems
+    would speak about something that is not the code."""
     alts = model.split("~")
-    if tok_equal(fn, impl, alts[0]):
-        return "ok", None
-    if len(alts) == 2 and tok_equal(fn, impl, alts[1]):
-        p = call.split(":")
-        if fn in SIGNED_FNS and any(b >= 0x80 for b in (bytes.fromhex(p[1]) if p[1] != "-" else b"")):
-            return "finding", "signed-char"
-        bl = parse_blocks(btok)
-        if fn in MULTIBLOCK_FNS and len(bl) > 1 and branch_class(btok, call) == "crosses-blocks":
-            return "finding", "multiblock-stat"
-        if fn in RANGE_FNS and alts[1] == "U" and p[-1] == "0":
-            off = int(p[-2])
-            if any(bl[i][0] == off == bl[i - 1][0] + bl[i - 1][1] for i in range(1, len(bl))):
-                return "finding", "zero-length-at-block-boundary"
-        return "bad", "code-and-code-model-agree-but-differ-from-spec"
-    return "bad", "implementation-differs-from-spec-and-model"
+    if not tok_equal(fn, impl, alts[0]):
+        if len(alts) == 2 and tok_equal(fn, impl, alts[1]):
+            return "bad", "implementation-and-code-model-agree-but-differ-from-spec"
+        return "bad", "implementation-differs-from-spec"
+    if len(alts) == 2:
+        return "bad", "code-following-model-differs-from-spec-and-implementation(stale model)"
+    return "ok", None
 
 
 def py_reference(blocks_tok_s, call):
@@ -507,10 +652,8 @@ def run(tier, replay=None):
         else:
             lines, ublines = [replay["case"]], []
         meta = {}
-    known = {f.get("signature", {}).get("kind"): f for f in core.known_findings("C14")}
     found = False
     nviol = 0
-    findings = {}
     hist_fn, hist_branch, hist_res, hist_family = {}, {}, {}, {}
     samples = []
     evaluations = 0
@@ -544,7 +687,7 @@ def run(tier, replay=None):
                 chk.violation("diff_%d.json" % nviol, {"kind": "malformed-output", "engine": "mod", "harness": "h_mod", "case": case, "ub": ub,
                                                         "implementation": iline, "model_spec": mline})
             return
-        fam = meta.get(cid, "ub" if ub else "replay")
+        fam = meta.get(cid, "int64-extremes" if ub else "replay")
         sizes = [] if btok == "none" else [0 if x.split(":")[1] == "-" else len(x.split(":")[1]) // 2 for x in btok.split(",")]
         if len(sizes) > 1 and 0 in sizes:
             # a zero-size block next to other blocks is not a buffer region: outside the specification.
@@ -577,15 +720,11 @@ def run(tier, replay=None):
                 samples.append({"blocks": btok, "call": call, "implementation": it[k], "model_spec": mt[k]})
             if verdict == "ok":
                 continue
-            single = "%s %s %s" % (cid, btok, call)
-            if verdict == "finding" and tag in known:
-                findings.setdefault(tag, []).append(single)
-                continue
             nviol += 1
             found = True
             if nviol <= 20:
                 chk.violation("diff_%d.json" % nviol, {
-                    "kind": "known-defect-class-not-listed:" + tag if verdict == "finding" else tag, "engine": "mod", "harness": "h_mod",
+                    "kind": tag, "engine": "mod", "harness": "h_mod",
                     "case": case, "failing_call": call, "call_index": k, "implementation": it[k], "model_spec": mt[k], "ub": ub,
                     "python_reference": ref,
                     "note": "model_spec is `<spec>` or `<spec>~<code-following model>` (Driver/Mod.lean); digests D<alg>:<bytes> are evaluated with hashlib; "
@@ -599,8 +738,8 @@ def run(tier, replay=None):
             for c in lines:
                 cid = c.split(" ", 1)[0]
                 compare(c, mi.get(cid), mm.get(cid))
-        # ---- undefined-behaviour class, one process each
-        ub_stats = {"cases": len(ublines), "sanitizer_aborts": 0, "clean": 0}
+        # ---- int64 extremes (offset+length >= 2^63, abs(INT64_MIN)): one process per case, so that an abort names its case
+        ub_stats = {"cases": len(ublines), "aborts": 0, "clean": 0}
         if ublines:
             umodel, _, _ = core.run_lines([core.driver_path(), "mod"], ublines)
             um = {l.split(" ", 1)[0]: l for l in umodel}
@@ -609,40 +748,31 @@ def run(tier, replay=None):
                 ures = list(ex.map(lambda l: core.run_lines([b["h_mod"]], [l]), ublines))
             for l, (o1, rc1, e1) in zip(ublines, ures):
                 if rc1 != 0:
-                    ub_stats["sanitizer_aborts"] += 1
+                    ub_stats["aborts"] += 1
                     evaluations += 1
-                    is_ub = ("signed integer overflow" in e1 or "negation of" in e1) and "runtime error" in e1
-                    tag = "ub-int64-overflow"
-                    if is_ub and tag in known:
-                        findings.setdefault(tag, []).append(l)
-                        continue
                     nviol += 1
                     found = True
                     if nviol <= 20:
-                        chk.violation("diff_%d.json" % nviol, {"kind": ("known-defect-class-not-listed:" + tag) if is_ub else "harness-crash-or-sanitizer",
-                                                                "engine": "mod", "harness": "h_mod", "case": l, "ub": True, "rc": rc1, "stderr": e1[-1500:],
-                                                                "model_spec": um.get(l.split(" ", 1)[0])})
+                        chk.violation("diff_%d.json" % nviol, {"kind": "harness-crash-or-sanitizer", "engine": "mod", "harness": "h_mod", "case": l,
+                                                                "ub": True, "rc": rc1, "stderr": e1[-1500:], "model_spec": um.get(l.split(" ", 1)[0])})
                 else:
                     ub_stats["clean"] += 1
                     compare(l, o1[0] if o1 else None, um.get(l.split(" ", 1)[0]), ub=True)
-        chk.cov["undefined_behaviour_class"] = ub_stats
-    for tag, cs in sorted(findings.items()):
-        f = known[tag]
-        chk.known(f, "%s (%s): %d calls, e.g. `%s` — %s" % (f.get("id"), tag, len(cs), cs[0].split(" ", 1)[1], f.get("text", "")))
+        chk.cov["int64_extremes_class"] = ub_stats
     chk.cov.update({
         "evaluations": evaluations, "distinct_nontrivial": len(nontrivial),
         "rule": "one evaluation = one module function call made by a compiled rule during a real scan, compared with the Lean specification value; "
                 "non-trivial = the call returned a defined value and is not a constant-only helper (in_range/to_number); distinct by (block layout, call)",
-        "case_lines": len(lines), "traces_validated_against_impl": evaluations - nviol - sum(len(v) for v in findings.values()),
+        "case_lines": len(lines), "traces_validated_against_impl": evaluations - nviol,
         "python_reference_cross_checks": model_ref_checked,
         "by_function": dict(sorted(hist_fn.items())), "by_branch": dict(sorted(hist_branch.items())), "by_result": hist_res,
-        "by_family": hist_family, "known_finding_hits": {k: len(v) for k, v in findings.items()}, "samples": samples,
+        "by_family": hist_family, "samples": samples,
         "tolerance": "relative 1e-9 / absolute 1e-12; math.percentage (float division in C) relative 2^-22"})
     core.handle_broken_proof(chk, lres, found)
     chk.assumptions += [
         "digest primitives (OpenSSL MD5/SHA-1/SHA-256) are parameters of the model; the comparator recomputes them with Python hashlib",
         "IEEE-754 evaluation is outside the proofs: exact rationals (Lean) vs the C doubles under tolerance; entropy is evaluated with Lean Float",
-        "int64 arguments: offset+length >= 2^63 and abs(INT64_MIN) are undefined behaviour in C, run in separate processes; the value "
+        "int64 arguments: offset+length >= 2^63 and abs(INT64_MIN) are run one call per process; the value "
         "0xFFFABADAFABADAFF (undefined sentinel, F14) is not generated",
         "strtoll: model of the glibc 2.36 grammar in the C locale; the C23 `0b` prefix (libc-version dependent) is not generated for bases 0 and 2",
         "memory blocks are ascending and readable (fetch_data != NULL), base+size < 2^63",
